@@ -481,7 +481,12 @@ func (c *SpecCtx) ssaName(name string) (TV, bool) {
 		}
 		if isAddr {
 			pt := v.Type().Underlying().(*types.Pointer)
-			return TV{c.e.load(c.heap, locOfRef(val.(Sc).T, pt.Elem())), pt.Elem()}, true
+			l := locOfRef(val.(Sc).T, pt.Elem())
+			if kl, ok := c.e.locs[v]; ok && kl.Priv != "" {
+				// non-escaping local: its content lives in the private heap
+				l.Priv = kl.Priv
+			}
+			return TV{c.e.load(c.heap, l), pt.Elem()}, true
 		}
 		return TV{val, v.Type()}, true
 	}
@@ -951,6 +956,9 @@ func (c *SpecCtx) call(n *ECall) TV {
 			ts = append(ts, flatten(a.V)...)
 		}
 		sort, ty := c.sortOfQVar(g.decl.Ret)
+		if len(ts) == 0 {
+			return TV{Sc{Term{smtSym(g.sym), sort}}, ty}
+		}
 		return TV{Sc{app(sort, smtSym(g.sym), ts...)}, ty}
 	}
 	if m, ok := c.lets[name]; ok {
